@@ -57,7 +57,8 @@ MANIFEST = {
             'agent_0.cfg are compared with Fraction/ceil arithmetic written '
             'independently.'
             '  Second session: the resolved config of every cell is compared value by value with the shipped entry overlaid with the schema (computed from the json files); a third of the sizing cases prepare 1-3 earlier pilots of the same bulk with the same resolved config object first, which must leave it unchanged.'
-            '  After preparing a pilot the shared master configs must be unchanged (resolution-alters-shared-config).',
+            '  After preparing a pilot the shared master configs must be unchanged (resolution-alters-shared-config).'
+            '  Every cell whose job manager endpoint names one batch system for which a PSI/J executor is installed must be accepted by the real PSI/J pilot launcher (can_launch); the endpoint scheme is parsed independently, transports and batch system in either order.',
     'note': 'Session and launcher objects are built with __new__ (no bridges, '
             'no job submission); the matrix part is exhaustive (flag in the '
             'evidence), the sizing part is sampled plus a fixed boundary sweep '
@@ -604,8 +605,51 @@ def check_cell(session, lc, broken, raw, resource, schema, res):
             % (size, e), exception=repr(e))
         out.append('job=?')
 
+    # -- the batch system the cell names is one a pilot launcher takes ----------
+    #
+    # The job manager endpoint is `<scheme>://host/`, the scheme a `+` joined
+    # set of one batch system and optional transports (in either order, as the
+    # shipped configs spell them).  Where the batch system has a PSI/J executor
+    # in this installation, the PSI/J pilot launcher must accept the cell.
+    ep = str(rcfg.get('job_manager_endpoint') or '')
+    parts = [x for x in ep.split(':')[0].split('+')
+             if x and x not in ('ssh', 'gsissh')]
+    if len(parts) == 1 and _psij_launcher() is not None:
+        batch = {'pbspro': 'pbs', 'fork': 'local'}.get(parts[0], parts[0])
+        if batch in _PSIJ['names']:
+            res.count('launcher_acceptance_checked')
+            res.see('job_manager_schemes', ep.split(':')[0])
+            try:
+                acc = _psij_launcher().can_launch(rcfg, None)
+            except Exception as e:
+                acc = 'raised %r' % e
+            if acc is not True:
+                bad('batch-system-not-accepted-by-launcher',
+                    'job_manager_endpoint %r names batch system %r, for which '
+                    'a PSI/J executor exists, but the PSI/J pilot launcher '
+                    'answers %r' % (ep, parts[0], acc), value=ep)
+            out.append('launcher=%s' % acc)
+
     ok = len(res.violations) == n0
     return ('ok ' if ok else 'BAD ') + ' '.join(out), True
+
+
+_PSIJ = {'launcher': None, 'names': None, 'tried': False}
+
+def _psij_launcher():
+    '''the real PSI/J pilot launcher (None when psij is not installed)'''
+    if not _PSIJ['tried']:
+        _PSIJ['tried'] = True
+        try:
+            import psij
+            import radical.pilot.pmgr.launching.psi_j as m_psij
+            _PSIJ['names']    = set(psij.JobExecutor.get_executor_names())
+            _PSIJ['launcher'] = m_psij.PilotLauncherPSIJ(
+                                    'PSIJ', NullLog(), NullProf(),
+                                    lambda *a, **k: None)
+        except Exception:
+            _PSIJ['launcher'] = None
+    return _PSIJ['launcher']
 
 
 # ------------------------------------------------------------------------------
